@@ -272,6 +272,68 @@ PROPS = {
         "level_text": "Differential runs of generated sequences against their filtered versions; counterexample search, not proof.",
         "level_note": "Trusts testing/synctest and the in-memory Conn; message bodies are built as values (the decoder path is covered by C18's byte-level part).",
     },
+    "C11": {
+        "pkg": "internal/system",
+        "files": ["system/zz_verif_policy_test.go"],
+        "run": "TestVerif_C11",
+        "level": "fault_enumeration",
+        "bubble": True,
+        "patches": [
+            {"name": "dial-lookupInterface", "file": "internal/system/dialer.go", "pattern": r"\blookupInterface\(d\.iface\)", "repl": "vkLookupInterface(d.iface)", "count": 1},
+            {"name": "dial-checkInterface", "file": "internal/system/dialer.go", "pattern": r"\bcheckInterface\(ifi, ifi\.Addrs\)", "repl": "vkCheckInterface(ifi, ifi.Addrs)", "count": 1},
+            {"name": "dial-dialNDP", "file": "internal/system/dialer.go", "pattern": r"\bdialNDP\(ifi\)", "repl": "vkDialNDP(ifi)", "count": 1},
+        ],
+        "quick": {"shards": 8},
+        "thorough": {"shards": 16},
+        "rule": ("fault sequences on the real Dialer.Dial + the real dial() (its three OS-facing callees lookupInterface/checkInterface/dialNDP renamed to "
+                 "recording fakes in the staged copy) on virtual time: every distinct execution of <=3 (quick) / <=4 (thorough) decisions over dial "
+                 "outcomes {ok, link-not-ready, syscall, permission, other} and task outcomes {nil, link change, syscall, permission, retries "
+                 "exhausted, other} x cancellation {none, during the run} x mode {Advertise, Monitor} x initial autoconf {on, off} x one State failure "
+                 "{permission, not-exist, other} at each of the first 6 State calls; rapid-generated sequences up to 60 decisions with up to 12 "
+                 "scripted State failures. Oracle: host-state model over the unified log - a connection is never opened while another is open, every "
+                 "connection is closed exactly once and before Dial returns (also when dial fails after opening the socket), autoconf is read/written "
+                 "only during a dial or a restore, never in Monitor mode, the value restored is the value read at that dial, exactly one restore per "
+                 "held connection before the next open, final value = initial unless a restore failed, non-tolerated restore errors are reported and "
+                 "tolerated ones are not. Non-trivial: >=2 dials or >=1 injected State failure. Distinct: FNV-64 of the canonical JSON case."),
+        "assumptions": [STAGED, BUBBLE, "the kernel setting is represented by the system.State interface; interface_linux.go and the raw socket are not executed"],
+        "technique": "bounded-exhaustive fault-sequence enumeration (model-driven DFS) + rapid property-based testing; host-state model checked on the recorded call log",
+        "level_text": "Every execution up to the depth bound with a single State fault at every call position, random deeper sequences with several faults.",
+        "level_note": "Trusts the recording fakes and the log scanner c11Oracle; if the call-site renames do not apply (refactored dial()), the check reports itself as skipped/inconclusive rather than passing.",
+    },
+    "C10": {
+        "parts": [
+            {"pkg": "internal/system", "files": ["system/zz_verif_policy_test.go"], "run": "TestVerif_C10policy",
+             "patches": [
+                {"name": "dial-lookupInterface", "file": "internal/system/dialer.go", "pattern": r"\blookupInterface\(d\.iface\)", "repl": "vkLookupInterface(d.iface)", "count": 1},
+                {"name": "dial-checkInterface", "file": "internal/system/dialer.go", "pattern": r"\bcheckInterface\(ifi, ifi\.Addrs\)", "repl": "vkCheckInterface(ifi, ifi.Addrs)", "count": 1},
+                {"name": "dial-dialNDP", "file": "internal/system/dialer.go", "pattern": r"\bdialNDP\(ifi\)", "repl": "vkDialNDP(ifi)", "count": 1}]},
+            {"pkg": "internal/corerad", "run": "TestVerif_C10live",
+             "files": ["corerad/zz_verif_C12_test.go", "corerad/zz_verif_sim_test.go", "corerad/zz_verif_adv_test.go", "corerad/zz_verif_mon_test.go",
+                       "corerad/zz_verif_C06_test.go", "corerad/zz_verif_C07_test.go", "corerad/zz_verif_C09_test.go", "corerad/zz_verif_C10_test.go"]},
+        ],
+        "level": "fault_enumeration",
+        "bubble": True,
+        "quick": {"shards": 8},
+        "thorough": {"shards": 16},
+        "rule": ("policy layer (package system): the real Dialer.Dial on virtual time with scripted DialFunc and task; every distinct execution of <=4 "
+                 "(quick) / <=6 (thorough) decisions over dial outcomes {ok, link-not-ready, syscall, permission, other} x task outcomes {nil, link "
+                 "change, syscall, permission, retries exhausted, other} x 7 cancellation instants (off the 250 ms grid), enumerated by a model-driven "
+                 "DFS; 48..53 consecutive failing attempts around the 50-attempt bound; rapid-generated scripts up to 60 decisions. Oracle: reference "
+                 "model of the policy (which steps happen, the virtual time of every dial attempt - waits 0, 250 ms, ... capped at 3 s, at most 50 - "
+                 "the final result and its time); the observed trace must equal it. Liveness layer (package corerad): a fault {1..20 receive "
+                 "timeouts, read error syscall/permission/other, link event, failing n-th scheduled unicast write syscall/other} injected at a "
+                 "generated instant into a running Advertiser or Monitor with traffic pending (bursts up to 30 RS), scripted failures of the "
+                 "following dial attempts, optional later cancellation, transmit latency; exhaustive fault matrix. Oracle: < 5 timeouts change "
+                 "nothing; otherwise within 1 s + latencies the old connection is never used again and either a dial attempt follows (recoverable "
+                 "causes) or Run returns the error without re-dialling (other causes); cancellation returns nil promptly. Non-trivial: >= 1 fault. "
+                 "Distinct: FNV-64 of the canonical JSON case."),
+        "assumptions": [STAGED, BUBBLE, FAKES, "non-recoverable dial errors inside a back-off loop are unspecified (counted, not judged)",
+                        "cancellation instants are placed off the timer grid: a cancellation at exactly the instant a timer fires is a legitimate race",
+                        "a failing SetReadDeadline (nothing can then interrupt the blocked read) is outside the fault model"],
+        "technique": "bounded-exhaustive fault-sequence enumeration (model-driven DFS) + rapid property-based testing against a reference policy model; fault injection into the running task on virtual time",
+        "level_text": "All executions up to the depth bound compared with a reference policy trace (times included); injected faults into the running task sampled and tabulated.",
+        "level_note": "Trusts the reference model polModel (written from the statement), testing/synctest, and the in-memory fakes.",
+    },
 }
 
 NOT_APPLICABLE = {}
